@@ -382,9 +382,15 @@ func unEscape(r []rune) string {
 				i += 5
 				continue
 			case 'U':
-				rc, err := strconv.ParseInt(string(r[i+1:i+9]), 16, 32)
+				// The grammar accepts any eight hex digits, so
+				// the value may not fit in a rune; WriteRune
+				// writes U+FFFD for invalid code points.
+				rc, err := strconv.ParseUint(string(r[i+1:i+9]), 16, 32)
 				if err != nil {
 					panic(fmt.Errorf("internal parser error: %w", err))
+				}
+				if rc > unicode.MaxRune {
+					rc = unicode.ReplacementChar
 				}
 				buf.WriteRune(rune(rc))
 				i += 9
